@@ -99,6 +99,19 @@ struct FragEngine : Engine {
                 for (auto& x : pk) { auto fr = fragment(x.first, x.second, mtu, net, vary_ttl); if (fr.size() > 1 && hop > 0) faults["fault.refragmentation"]++; nx.insert(nx.end(), fr.begin(), fr.end()); }
                 pk.swap(nx); if (mtu > 68 + 16) mtu = std::max<size_t>(68, mtu - (size_t)cfg.range(0, (int64_t)mtu / 2));
             }
+            // fault: an inconsistent ("teardrop"-like) set - one middle fragment never arrives and a stray fragment of exactly its size overlaps
+            // another one, so end, first fragment and byte count are all there while a hole remains. No datagram may be produced from it, and
+            // once it has been given up on the key must be usable again by a later well-formed datagram (recovery after the fault)
+            bool hostile = false;
+            if (pk.size() >= 3 && cfg.chance(0.08)) {
+                std::vector<size_t> js, is; for (size_t k = 1; k + 1 < pk.size(); ++k) js.push_back(k);
+                size_t j = js[cfg.below(js.size())], sj = pk[j].second.size();
+                for (size_t k = 0; k + 1 < pk.size(); ++k) if (k != j && pk[k].second.size() >= 16) is.push_back(k);
+                if (!is.empty() && sj > 0 && sj % 8 == 0) {
+                    size_t i = is[cfg.below(is.size())]; std::pair<Ip4Hdr, Bytes> extra = pk[i]; extra.first.frag_off8 = (uint16_t)(pk[i].first.frag_off8 + 1); extra.first.mf = true; extra.second = wl.bytes(sj);
+                    pk.erase(pk.begin() + j); pk.insert(pk.begin() + (size_t)cfg.below(pk.size() + 1), extra); hostile = true; faults["fault.inconsistent_fragment_set"]++;
+                }
+            }
             // same key reused sequentially: start after everything of the earlier datagram has arrived; the earlier one then must not leave late duplicates
             std::string key = d.h.src.hexs() + d.h.dst.hexs() + fmt("%u", d.h.id);
             int64_t t0 = (int64_t)cfg.below((uint64_t)span);
@@ -117,7 +130,7 @@ struct FragEngine : Engine {
             // ... and so does one with duplicates: a duplicate arriving after completion legitimately starts a new partial set under that key
             key_busy_until[key] = (lost_any || (dup_any && pk.size() > 1)) ? INT64_MAX / 4 : tmax;
             if (pk.size() > 1) faults["fault.fragmented_datagram"]++;
-            KV t; t.set("dg", i).set("src", d.h.src.hexs()).set("dst", d.h.dst.hexs()).set("id", d.h.id).set("proto", d.h.proto).set("nfrag", (int64_t)pk.size()).set("payload", d.payload);
+            KV t; t.set("dg", i).set("src", d.h.src.hexs()).set("dst", d.h.dst.hexs()).set("id", d.h.id).set("proto", d.h.proto).set("nfrag", (int64_t)pk.size()).set("hostile", hostile ? 1 : 0).set("payload", d.payload);
             p.truth.push_back(t.line());
         }
         // drop datagrams that would reuse a key still busy (generator premise)
@@ -129,7 +142,7 @@ struct FragEngine : Engine {
         return p;
     }
 
-    struct RefStream { std::vector<std::pair<size_t, Bytes> > frags; bool end_known; size_t total; bool have_first; Decoded first; RefStream() : end_known(false), total(0), have_first(false) {} };
+    struct RefStream { std::vector<std::pair<size_t, Bytes> > frags; bool end_known; size_t total, received; bool have_first; Decoded first; RefStream() : end_known(false), total(0), received(0), have_first(false) {} };
 
     Verdict execute(const Plan& p, RunStats& st, Trace& tr) {
         for (auto& kv : p.cfg.v) if (kv.first.compare(0, 6, "fault.") == 0) st.ctr[kv.first] += strtoull(kv.second.c_str(), 0, 10);
@@ -152,13 +165,15 @@ struct FragEngine : Engine {
                 for (auto& f : s.frags) if (f.first == off) dupf = true;
                 if (dupf) st.inc("probe.duplicate_fragment");
                 else {
-                    s.frags.push_back(std::make_pair(off, d.l4)); std::sort(s.frags.begin(), s.frags.end(), [](const std::pair<size_t, Bytes>& a, const std::pair<size_t, Bytes>& b) { return a.first < b.first; });
+                    s.received += d.l4.size(); s.frags.push_back(std::make_pair(off, d.l4)); std::sort(s.frags.begin(), s.frags.end(), [](const std::pair<size_t, Bytes>& a, const std::pair<size_t, Bytes>& b) { return a.first < b.first; });
                     if (!d.mf) { s.end_known = true; s.total = off + d.l4.size(); if (s.frags.size() == 1) st.inc("probe.last_fragment_first"); }
                     if (off == 0) { s.have_first = true; s.first = d; }
                     if (s.end_known) {
                         size_t pos = 0; bool gap = false; Bytes all;
                         for (auto& f : s.frags) { if (f.first != pos) { gap = true; break; } all.insert(all.end(), f.second.begin(), f.second.end()); pos += f.second.size(); }
-                        if (!gap && pos == s.total) { expect = 2; expect_payload = all; first = s.first; ref.erase(key); st.inc("probe.completed"); if (off != 0 && d.mf) st.inc("probe.completed_by_middle_fragment"); if (off == 0) st.inc("probe.completed_by_first_fragment"); }
+                        // an inconsistent set (first fragment, end and byte count all there, yet a hole): never a datagram; it is given up on and the key is free again
+                        if ((gap || pos != s.total) && s.have_first && s.received == s.total) { ref.erase(key); st.inc("probe.inconsistent_set_rejected"); any_fault = true; }
+                        else if (!gap && pos == s.total) { expect = 2; expect_payload = all; first = s.first; ref.erase(key); st.inc("probe.completed"); if (off != 0 && d.mf) st.inc("probe.completed_by_middle_fragment"); if (off == 0) st.inc("probe.completed_by_first_fragment"); }
                     }
                 }
             }
